@@ -60,7 +60,7 @@ Definition areas_nd (tsize : Z) (idx_nd : list Z) (blk_nd : list (list (Z * Z)))
   map (fun l => Qred (sum_by_label rows area l)) idx_nd.
 
 (* the whole function: per requested label (kind, value) as in HullAreaC13.hull_area_obj;
-   None = IndexError of index_of_label[indexes] = ... (a requested label above the largest hull label) *)
+   None = IndexError of index_of_label[indexes] = ... (cannot happen: the tables cover max(indexes)) *)
 Fixpoint place (counts : list Z) (blocks : list (list (Z * Z))) (nd : list Q) : list (Z * Q) :=
   match counts, blocks with
   | c :: cs, b :: bs =>
@@ -78,11 +78,15 @@ Fixpoint place (counts : list Z) (blocks : list (list (Z * Z))) (nd : list Q) : 
   | _, _ => []
   end.
 
+(* the size of index_of_label / counts_per_label: max(hull[:, 0].max(), indexes.max()) + 1 (round 6: the tables
+   cover the request list, so that a requested label above every label with a hull row is just a label without points) *)
+Definition tsize_of (indexes : list Z) (blocks : list (list (Z * Z))) : Z :=
+  Z.max (maxl (map fst (hull_rows indexes blocks))) (maxl indexes) + 1.
+
 Definition hull_areas_vec (indexes : list Z) (blocks : list (list (Z * Z))) : option (list (Z * Q)) :=
-  let rows := hull_rows indexes blocks in
   let counts := map zlenv blocks in
-  let tsize := maxl (map fst rows) + 1 in
-  if existsb (fun l => tsize <=? l) indexes then None else
+  let tsize := tsize_of indexes blocks in
+  if existsb (fun l => tsize <=? l) indexes then None else      (* never: see hull_areas_vec_defined *)
   let nd := filter (fun lb => 3 <=? zlenv (snd lb)) (combine indexes blocks) in
   (* hull_nd = hull[counts_per_label[hull[:, 0]] >= 3] is the concatenation of the non-degenerate blocks
      (HullAreaVecC13Proofs.compaction); counts_nd = counts[counts >= 3]; indexes_nd = indexes[counts >= 3] *)
@@ -91,7 +95,7 @@ Definition hull_areas_vec (indexes : list Z) (blocks : list (list (Z * Z))) : op
 (* the compaction step itself, as written, for the correspondence of the two forms of hull_nd *)
 Definition hull_nd_as_written (indexes : list Z) (blocks : list (list (Z * Z))) : list hrow :=
   let rows := hull_rows indexes blocks in
-  let tsize := maxl (map fst rows) + 1 in
+  let tsize := tsize_of indexes blocks in
   let cpl := scatter (combine indexes (map zlenv blocks)) (repeat 0 (Z.to_nat tsize)) in   (* counts_per_label *)
   filter (fun r => 3 <=? nthz cpl (fst r) 0) rows.
 
